@@ -79,7 +79,7 @@ func c18Run(ctx *core.Ctx) {
 		}
 		for i, t1 := range txns {
 			for j, t2 := range txns {
-				if !ctx.Thorough() && (i*7+j)%5 != 0 {
+				if !ctx.Thorough() && (i*7+j)%2 != 0 {
 					continue
 				}
 				emitAll([][]c18Rcpt{t1, t2})
